@@ -4,8 +4,8 @@ CONSTANTS
   Preset = "both"
   K = {0, 1}
   MaxRows = 2
-  MaxVal = 2
-  Modes2 = {"plain", "ignore", "replace", "odku"}
+  MaxVal = 1
+  Modes2 = {"plain"}
   MaxId = 6
 VIEW View
 CONSTRAINT Bounded
